@@ -214,6 +214,7 @@ def alphabet(tier="quick", family="all"):
             ("remove_genes", ("g3",), True), ("remove_genes", ("g2", "g3"), False),
             ("remove_genes", ("g2",), True), ("remove_genes", ("g2", "g3"), True),
             ("rename_genes", (("g1", "g9"),)), ("rename_genes", (("g1", "g2"),)),
+            ("rename_genes", (("g1", "g9"), ("g3", "g9"))),
             ("merge", "left", None), ("merge", "right", None), ("merge", "sum", "o_"),
             ("repair",)]
     # 5 identifiers
